@@ -354,3 +354,22 @@ Proof.
   - apply Nat.leb_le. reflexivity.
   - apply wf_of_stream. exact W.
 Qed.
+
+(* "the result is the same whatever the sizes of the chunks", for the polling consumer and for ANY input (also
+   malformed ones: the requests after a parse or decoding error and after End included) *)
+From LMIo Require Import IoPollChunk.
+
+Theorem reader_polls_chunk_independent_jaspar : forall n caps s1 s2,
+  wf_stream s1 -> wf_stream s2 -> stream_bytes s1 = stream_bytes s2 ->
+  jaspar_polls_e n caps (of_stream s1) = jaspar_polls_e n caps (of_stream s2).
+Proof. intros n caps s1 s2. exact (j_polls_chunk_independent gen_jaspar_slice_guard (j_record false) _ _ n caps s1 s2). Qed.
+
+Theorem reader_polls_chunk_independent_jaspar16 : forall A n caps s1 s2,
+  wf_stream s1 -> wf_stream s2 -> stream_bytes s1 = stream_bytes s2 ->
+  jaspar16_polls_e A n caps (of_stream s1) = jaspar16_polls_e A n caps (of_stream s2).
+Proof. intros A n caps s1 s2. exact (j_polls_chunk_independent gen_jaspar_slice_guard (j16_record A) _ _ n caps s1 s2). Qed.
+
+Theorem reader_polls_chunk_independent_uniprobe : forall A parse_f32 n s1 s2,
+  wf_stream s1 -> wf_stream s2 -> stream_bytes s1 = stream_bytes s2 ->
+  uniprobe_polls_e A parse_f32 n (of_stream s1) = uniprobe_polls_e A parse_f32 n (of_stream s2).
+Proof. exact uniprobe_polls_chunk_independent. Qed.
